@@ -640,6 +640,37 @@ def run(check, an: Analysis):
     check.instance('P', 'InterruptQueue.push:wakes', ok, where_fn(push.fn),
                    'raising the interrupt flag triggers its waiters')
     from ..norm import function_predicate, equivalent_terms, bool_term
+    # what a waiter is resumed with: the value of a good event, the exception of a failed one
+    for cls_qn in (EVENT, 'usim.py._awaitable.AwaitableEvent'):
+        label = cls_qn.rsplit('.', 1)[-1]
+        getter = an.callee(cls_qn, 'value')
+        ok, n = True, 0
+        for path in an.paths(getter):
+            if path.kind != 'return' or path.outcome[1] is None:
+                continue
+            n += 1
+            end = len(path.events)
+            got = rules.value_text(path, end, path.outcome[1])
+            failed = None
+            for index, event in enumerate(path.events):
+                key = event.get('key') if event.kind == 'test' else None
+                if key and key[0] == 'isnone' and rules.value_text(
+                        path, index, ast.parse(key[1], mode='eval').body) == 'self._value[1]':
+                    failed = not key_truth(event)
+            ok &= failed is not None and got == (
+                'self._value[1]' if failed else 'self._value[0]')
+        check.instance('P', '%s.value' % label, ok and n > 0, where_fn(getter.fn),
+                       'the stored value when no exception is stored, else the exception -- '
+                       'decided by `exception is None`, not by the truth of the value '
+                       '(%d return paths)' % n, analysed=n)
+        okm = an.method(cls_qn, 'ok')
+        try:
+            same = equivalent_terms(function_predicate(okm.node), bool_term(ast.parse(
+                'self._value is not None and self._value[1] is None', mode='eval').body))
+        except Exception:
+            same = False
+        check.instance('P', '%s.ok' % label, same, where_fn(okm),
+                       'ok == triggered without an exception')
     for name, want in (('all_events', 'len({0}) == {1}'),
                        ('any_events', '{1} or not {0}')):
         method = an.method(CONDITION, name)
